@@ -28,3 +28,8 @@ package tilecover
 //@   requires set != nil
 //@   loop 1: invariant (same(prevX, -1.0) && same(prevY, -1.0)) || has(set, mk(maptile.Tile, uint32(prevX), uint32(prevY), zoom))
 //@   loop 2: invariant (same(prevX, -1.0) && same(prevY, -1.0)) || has(set, mk(maptile.Tile, uint32(prevX), uint32(prevY), zoom))
+
+// the cover of a collection merges the cover of EVERY member: the loop is left only after the last
+// member (an error returns at once)
+//@ func Collection(c, z)
+//@   loop 1: exit rangeindex + 1 >= len(c)
